@@ -57,6 +57,12 @@ impl Future for CoopYield {
         if self.0 { Poll::Ready(()) } else { self.0 = true; desync::verif::log("api", "COOPYIELD", 0, String::new()); cx.waker().wake_by_ref(); Poll::Pending }
     }
 }
+/// wakes its own waker and panics in the same poll: the queue is found 'awoken while running' by the guard that handles the panic
+struct WakeThenPanic(usize);
+impl Future for WakeThenPanic {
+    type Output = ();
+    fn poll(self: Pin<&mut Self>, cx: &mut Context) -> Poll<()> { cx.waker().wake_by_ref(); panic!("INTENDED panic in operation {}", self.0); }
+}
 /// select-style future: ready when either event has fired; while pending its waker is registered with BOTH events, so the
 /// event that fires second calls a stale waker (possibly long after the operation has finished)
 struct EitherFut { ctx: Arc<Ctx>, e: usize, e2: usize }
@@ -220,7 +226,7 @@ fn run_body(ctx: &Arc<Ctx>, oid: usize, body: &Vec<Prim>, p: &mut Payload, calle
     for prim in body {
         match prim {
             Prim::Touch => ctx.touch(oid, p),
-            Prim::AwaitEv(_) | Prim::AwaitEvSig(_, _) | Prim::CoopYield | Prim::AwaitEither(_, _) => { /* only meaningful in future bodies */ }
+            Prim::AwaitEv(_) | Prim::AwaitEvSig(_, _) | Prim::CoopYield | Prim::AwaitEither(_, _) | Prim::WakePanic => { /* only meaningful in future bodies */ }
             Prim::Gate(g) => { let gt = &ctx.gates[*g]; let mut o = gt.open.lock().unwrap(); while !*o { o = gt.cv.wait(o).unwrap(); } }
             Prim::Panic => { p.mon.panicked.store(true, SeqCst); ctx.panics_started.fetch_add(1, SeqCst); panic!("INTENDED panic in operation {}", oid); }
             Prim::Signal(e) => { exec_op(ctx, &Op::Fire(*e), caller, true, &mut Local::default()); }
@@ -240,6 +246,7 @@ fn run_body_async<'a>(ctx: Arc<Ctx>, oid: usize, body: Vec<Prim>, p: &'a mut Pay
                 Prim::AwaitEv(e) => { EventFut { ctx: ctx.clone(), e: *e, sig: None }.await; }
                 Prim::AwaitEvSig(e, e2) => { EventFut { ctx: ctx.clone(), e: *e, sig: Some(*e2) }.await; }
                 Prim::CoopYield => { CoopYield(false).await; }
+                Prim::WakePanic => { p.mon.panicked.store(true, SeqCst); ctx.panics_started.fetch_add(1, SeqCst); WakeThenPanic(oid).await; }
                 Prim::AwaitEither(e, e2) => { EitherFut { ctx: ctx.clone(), e: *e, e2: *e2 }.await; }
                 Prim::Gate(g) => { let gt = &ctx.gates[*g]; let mut o = gt.open.lock().unwrap(); while !*o { o = gt.cv.wait(o).unwrap(); } }
                 Prim::Panic => { p.mon.panicked.store(true, SeqCst); ctx.panics_started.fetch_add(1, SeqCst); panic!("INTENDED panic in operation {}", oid); }
